@@ -392,6 +392,7 @@ class GroupBy:
             group_key, first_chunk_in, mask_chunks = (
                 self._resolve_mask_argument_into_chunks(mask)
             )
+        if self.key_is_chunked:  # resolving integer positions unifies the key
             count = np.zeros(self.ngroups, dtype=np.int64)
             for i, chunk in enumerate(group_key.chunks):
                 m = mask_chunks[i]
@@ -822,7 +823,16 @@ class GroupBy:
             group_key = self.group_ikey[mask]
             mask_chunks = mask_chunks[first_chunk_in:]
         else:
-            if self.key_is_chunked:
+            mask_is_boolean = pd.api.types.is_bool_dtype(mask) or (
+                isinstance(mask, pl.Series) and mask.dtype == pl.Boolean
+            )
+            if self.key_is_chunked and mask is not None and not mask_is_boolean:
+                # positions may repeat and come in any order, which a row mask per
+                # chunk cannot express: they index the key as one array
+                self._unify_group_key_chunks(keep_chunked=False)
+                group_key = self.group_ikey
+                mask_chunks = [mask]
+            elif self.key_is_chunked:
                 if not pd.api.types.is_bool_dtype(mask):
                     # Fancy indexing does not work for chunked keys
                     bool_mask = np.full(len(self), False)
